@@ -73,7 +73,7 @@ func (f *File) Apply(filename string, src []byte) (_ []byte, err error) {
 		}
 
 		snap = snap.Diff(fout, cl)
-		cleanupFilePos(f.fset.File(fout.Pos()), cl, fout.Comments)
+		fout.Comments = cleanupFilePos(f.fset.File(fout.Pos()), cl, fout.Comments)
 	}
 
 	if retErr != nil {
@@ -104,7 +104,10 @@ func (f *File) Apply(filename string, src []byte) (_ []byte, err error) {
 	return bs, nil
 }
 
-func cleanupFilePos(tfile *token.File, cl engine.Changelog, comments []*ast.CommentGroup) {
+// cleanupFilePos deletes the comments inside the changed regions, merges
+// the lines they spanned, and returns the comment groups that still hold
+// comments.
+func cleanupFilePos(tfile *token.File, cl engine.Changelog, comments []*ast.CommentGroup) []*ast.CommentGroup {
 	linesToDelete := make(map[int]struct{})
 	for _, dr := range cl.ChangedIntervals() {
 		if dr.Start == token.NoPos {
@@ -138,4 +141,15 @@ func cleanupFilePos(tfile *token.File, cl engine.Changelog, comments []*ast.Comm
 	for i := len(lines) - 1; i >= 0; i-- {
 		tfile.MergeLine(lines[i])
 	}
+
+	// A group whose comments were all deleted must not stay in the file:
+	// its Pos and End index an empty list. The groups are collected in a
+	// new slice because the one passed in is the file's own.
+	kept := make([]*ast.CommentGroup, 0, len(comments))
+	for _, cg := range comments {
+		if len(cg.List) > 0 {
+			kept = append(kept, cg)
+		}
+	}
+	return kept
 }
